@@ -16,8 +16,18 @@ type Lazy struct {
 	depth int
 	done  bool
 	val   Iface
-	noExp bool
+	kvar  string // SMT variable holding the node's kind (0 null .. 5 object)
+	excl  uint8  // kinds already excluded on this path
 }
+
+const (
+	kNull = iota
+	kBool
+	kNumber
+	kString
+	kArray
+	kObject
+)
 
 var (
 	tIface  types.Type
@@ -113,30 +123,97 @@ func (x *Exec) symFloat(hint string) Flt {
 	return Flt{T: f}
 }
 
-// resolve materialises one level of a lazy node: its kind, and for
-// containers the length / key presence; children stay lazy.
-func (x *Exec) resolve(i Iface) Iface {
-	if i.L == nil {
-		return i
+func (x *Exec) kindVar(l *Lazy) string {
+	if l.kvar == "" {
+		l.kvar = x.fresh("(_ BitVec 8)", fmt.Sprintf("kind%d", l.id))
+		x.sol.send("(assert (bvult " + l.kvar + " (_ bv6 8)))\n")
 	}
-	l := i.L
+	return l.kvar
+}
+
+// lazyIs decides whether an unmaterialised node has kind k. Only this one
+// question is put to the solver; the node stays lazy when the answer is no
+// (unless a single kind remains).
+func (x *Exec) lazyIs(l *Lazy, k int) bool {
 	if l.done {
-		return l.val
+		return kindOfIface(l.val) == k
 	}
+	if l.excl&(1<<uint(k)) != 0 {
+		return false
+	}
+	v := x.kindVar(l)
+	if x.decide(fmt.Sprintf("(= %s (_ bv%d 8))", v, k)) {
+		x.materialize(l, k)
+		return true
+	}
+	l.excl |= 1 << uint(k)
+	// one kind left: forced
+	rem := -1
+	cnt := 0
+	for q := 0; q < 6; q++ {
+		if l.excl&(1<<uint(q)) == 0 {
+			rem = q
+			cnt++
+		}
+	}
+	if cnt == 1 {
+		x.sol.send(fmt.Sprintf("(assert (= %s (_ bv%d 8)))\n", v, rem))
+		x.materialize(l, rem)
+	}
+	return false
+}
+
+func kindOfIface(v Iface) int {
+	if v.T == nil {
+		return kNull
+	}
+	switch v.V.(type) {
+	case Bool:
+		return kBool
+	case Flt:
+		return kNumber
+	case Str:
+		return kString
+	case Slice:
+		return kArray
+	case *Map:
+		return kObject
+	}
+	return -1
+}
+
+// jsonKindOfType: which JSON kind a Go type is (-1: none).
+func jsonKindOfType(t types.Type) int {
+	switch {
+	case types.Identical(t, types.Typ[types.Bool]):
+		return kBool
+	case types.Identical(t, types.Typ[types.Float64]):
+		return kNumber
+	case types.Identical(t, types.Typ[types.String]):
+		return kString
+	case types.Identical(t, tSliceI):
+		return kArray
+	case types.Identical(t, tMapSI):
+		return kObject
+	}
+	return -1
+}
+
+// materialize gives the node its one-level value of kind k.
+func (x *Exec) materialize(l *Lazy, kind int) {
 	l.done = true
 	j := x.job
-	kind := x.choose(fmt.Sprintf("kind%d", l.id), 6)
 	switch kind {
-	case 0:
+	case kNull:
 		l.val = Iface{}
-	case 1:
+	case kBool:
 		l.val = Iface{T: types.Typ[types.Bool], V: Bool{T: x.fresh("Bool", fmt.Sprintf("b%d", l.id))}}
-	case 2:
+	case kNumber:
 		l.val = Iface{T: types.Typ[types.Float64], V: x.symFloat(fmt.Sprintf("f%d", l.id))}
-	case 3:
+	case kString:
 		n := x.choose(fmt.Sprintf("slen%d", l.id), j.S+1)
 		l.val = Iface{T: types.Typ[types.String], V: x.symString(n, fmt.Sprintf("s%d", l.id), true)}
-	case 4:
+	case kArray:
 		n := 0
 		if l.depth > 0 {
 			n = x.choose(fmt.Sprintf("alen%d", l.id), j.W+1)
@@ -147,18 +224,53 @@ func (x *Exec) resolve(i Iface) Iface {
 		}
 		a.E[n] = Iface{T: types.Typ[types.String], V: strOf("\x00spare")}
 		l.val = Iface{T: tSliceI, V: Slice{Arr: &Cell{V: a, Name: "docarr", Epoch: 0}, Len: n, Cap: n + 1}}
-	case 5:
-		m := &Map{Epoch: 0, Doc: true}
+	case kObject:
+		m := &Map{Epoch: 0, Doc: true, PDepth: l.depth - 1, PID: l.id}
 		if l.depth > 0 {
-			for _, k := range j.Keys {
-				p := Bool{T: x.fresh("Bool", fmt.Sprintf("has%d_%x", l.id, k))}
-				if x.truth(p) {
-					m.Keys = append(m.Keys, strOf(k))
-					m.Vals = append(m.Vals, x.newLazy(l.depth-1))
-				}
-			}
+			m.Pend = append([]string{}, j.Keys...)
 		}
 		l.val = Iface{T: tMapSI, V: m}
+	}
+}
+
+// decideKey settles whether a not-yet-examined member of a document object is present.
+func (x *Exec) decideKey(m *Map, k string) {
+	idx := -1
+	for i, p := range m.Pend {
+		if p == k {
+			idx = i
+		}
+	}
+	if idx < 0 {
+		return
+	}
+	m.Pend = append(append([]string{}, m.Pend[:idx]...), m.Pend[idx+1:]...)
+	p := Bool{T: x.fresh("Bool", fmt.Sprintf("has%d_%x", m.PID, k))}
+	if x.truth(p) {
+		m.Keys = append(append([]Val{}, m.Keys...), strOf(k))
+		m.Vals = append(append([]Val{}, m.Vals...), x.newLazy(m.PDepth))
+	}
+}
+
+// forceKeys settles every member (needed by len, range, equality).
+func (x *Exec) forceKeys(m *Map) {
+	for m != nil && len(m.Pend) > 0 {
+		x.decideKey(m, m.Pend[0])
+	}
+}
+
+// resolve materialises one level of a lazy node completely: its kind, and
+// for containers the length / key presence; children stay lazy.
+func (x *Exec) resolve(i Iface) Iface {
+	if i.L == nil {
+		return i
+	}
+	l := i.L
+	for k := 0; k < 6 && !l.done; k++ {
+		x.lazyIs(l, k)
+	}
+	if !l.done {
+		panic("lazy node left without a kind")
 	}
 	return l.val
 }
@@ -251,6 +363,8 @@ func (x *Exec) collectTerms(v Val, acc map[string]bool, depth int) {
 		if vv.L != nil {
 			if vv.L.done {
 				x.collectTerms(vv.L.val, acc, depth+1)
+			} else if vv.L.kvar != "" {
+				acc[vv.L.kvar] = true
 			}
 			return
 		}
@@ -399,6 +513,21 @@ func fmtFloat(f float64) string {
 func (x *Exec) renderJSON(v Iface, m map[string]string) string {
 	if v.L != nil {
 		if !v.L.done {
+			if v.L.kvar != "" {
+				kv, _ := lookupModel(m, v.L.kvar)
+				switch modelBV(kv) {
+				case kBool:
+					return "false"
+				case kNumber:
+					return "0"
+				case kString:
+					return "\"\""
+				case kArray:
+					return "[]"
+				case kObject:
+					return "{}"
+				}
+			}
 			return "null"
 		}
 		return x.renderJSON(v.L.val, m)
@@ -484,6 +613,21 @@ func (x *Exec) renderVal(v Val, m map[string]string) string {
 	case Iface:
 		if vv.L != nil {
 			if !vv.L.done {
+				if vv.L.kvar != "" {
+					kv, _ := lookupModel(m, vv.L.kvar)
+					switch modelBV(kv) {
+					case kBool:
+						return "false"
+					case kNumber:
+						return "f0"
+					case kString:
+						return "\"\""
+					case kArray:
+						return "[]"
+					case kObject:
+						return "{}"
+					}
+				}
 				return "null"
 			}
 			return x.renderVal(vv.L.val, m)
